@@ -139,3 +139,82 @@ Proof.
   - unfold entity_safe. cbv zeta. repeat split; try (vm_compute; reflexivity); vm_compute; repeat constructor.
   - eexists. vm_compute. reflexivity.
 Qed.
+
+(* ---------------- for ANY strings ----------------
+   coq/theories/Setters.v models the text-accepting setters (Subject, SetGenHeader / SetHeader,
+   SetOrganization, SetUserAgent, SetMessageIDWithValue, SetBulk, SetImportance, the address setters)
+   and combines them with the part / file builder calls of Builder.v.  Every free-text argument is an
+   ARBITRARY byte string (wf_bytes = bytes are < 256): subject, generic header values, organisation,
+   user agent, message id, part and file descriptions, file names, content ids.  What the theorems
+   still assume (cop_ok) concerns the typed-string parameters only: the header KEY of SetGenHeader
+   (type Header, written as it is: must be a field name), content types, charsets, encoding names —
+   and H-addr-safe: the strings net/mail's Address.String() returns are printable (validated per
+   run); the date / message-id oracle strings and the drawn boundaries are printable. *)
+From Verif Require Import Builder EmlWord Setters.
+From VerifProofs Require Import RenderIdemProofs EmlWordProofs LineDisciplineProofs SettersProofs.
+From Verif Require Import Writer.
+
+(* whatever the setters are given, the stored message meets the hypotheses of the whole-message
+   theorems (C02_message_header_fields, C18_message_crlf_only / _line_bound) *)
+Theorem C02_setters_store_safe : forall (cs : bytes) (w : N) (e : enc) (ops : list cop) (d i : bytes) (rb : list bytes),
+  safe cs -> wenc_ok w -> enc_typed e -> Forall cop_ok ops ->
+  safe d -> safe i -> Forall safe rb ->
+  let z := resolve d i rb (b_msg (run_calls (new_state cs w e) ops)) in
+  hdrs_safe (z_msg z) /\ m_preform (z_msg z) = [] /\ entity_safe z /\ msg_safe z.
+Proof. exact setters_store_safe. Qed.
+Print Assumptions C02_setters_store_safe.
+
+(* hence: the header section of the rendered message has exactly the expected fields, for every
+   call sequence with arbitrary raw strings *)
+Theorem C02_any_strings : forall (cs : bytes) (w : N) (e : enc) (ops : list cop) (d i : bytes) (rb : list bytes) (t : node),
+  safe cs -> wenc_ok w -> enc_typed e -> Forall cop_ok ops ->
+  safe d -> safe i -> Forall safe rb ->
+  let m := b_msg (run_calls (new_state cs w e) ops) in
+  let z := resolve d i rb m in
+  forest_of z = [t] ->
+  field_names (render_pure z) = Some (top_names (z_msg z) ++ entity_names z).
+Proof. exact any_strings. Qed.
+Print Assumptions C02_any_strings.
+
+(* the value side: the stored generic header values are the word-encoded asked values (last call per
+   key wins, Reset drops all), and each decodes (RFC 2047, the reader of EmlWord.v) to the string that
+   was set — for every value that needs encoding or contains no "=?" *)
+Theorem C02_stored_values_decode : forall (cs : bytes) (w : N) (e : enc) (ops : list cop),
+  wenc_ok w ->
+  let m := b_msg (run_calls (new_state cs w e) ops) in
+  m_gen m = map (enc_kv w) (gen_asked ops) /\
+  (Forall (fun kv => Forall (fun raw => wf_bytes raw = true /\ decodable raw = true) (snd kv)) (gen_asked ops) ->
+   map (fun kv => (fst kv, map decode_header (snd kv))) (m_gen m) =
+   map (fun kv => (fst kv, map Some (snd kv))) (gen_asked ops)).
+Proof. exact stored_values_decode. Qed.
+Print Assumptions C02_stored_values_decode.
+
+(* the complement is the known finding encoded-word-lookalike-verbatim *)
+Theorem C02_lookalike_value_refuted : exists raw : bytes,
+  wf_bytes raw = true /\ decodable raw = false /\ decode_header (word_encode 113 raw) <> Some raw.
+Proof. exact lookalike_refuted. Qed.
+Print Assumptions C02_lookalike_value_refuted.
+
+(* instance: injection attempts through every free-text argument *)
+Definition c02_evil : bytes := bs "x" ++ crlf ++ bs "X-Injected: 1" ++ crlf ++ crlf ++ bs "body".
+Definition c02_calls : list cop :=
+  [CS (SSubject c02_evil); CS (SGen (bs "X-Custom") [c02_evil; bs "=?utf-8?q?a?="]); CS (SOrganization c02_evil);
+   CS (SUserAgent c02_evil); CS (SMessageID c02_evil); CS SBulk; CS (SImportance ImpHigh);
+   CS (SFrom (bs """A"" <a@x.test>")); CS (SAddr (bs "To") [bs "<b@y.test>"]);
+   CB (BSetBody (bs "text/plain") None None c02_evil (mkprod [bs "Hello"] false));
+   CB (BAddAlt (bs "text/html") (Some EncB64) None [] (mkprod [bs "<p>Hello</p>"] false));
+   CB (BEmbed (file_of c02_evil (bs "image/png") None c02_evil (Some c02_evil) (mkprod [bs "x"] false)));
+   CB (BAttach (file_of (bs "a""b/c.txt") (bs "text/plain") None [] None (mkprod [bs "y"] false)))].
+
+Example C02_any_strings_hypotheses : Forall cop_ok c02_calls.
+Proof. apply calls_okb_sound. vm_compute. reflexivity. Qed.
+
+Example C02_any_strings_example :
+  let z := resolve (bs "Thu, 01 Oct 2026 10:00:00 +0000") (bs "<1@x.test>") [bs "B1B1"; bs "B2B2"; bs "B3B3"]
+                   (b_msg (run_calls (new_state (bs "UTF-8") 113 EncQP) c02_calls)) in
+  field_names (render_pure z) =
+    Some [bs "Date"; bs "Importance"; bs "MIME-Version"; bs "Message-ID"; bs "Organization"; bs "Precedence"; bs "Priority";
+          bs "Subject"; bs "User-Agent"; bs "X-Auto-Response-Suppress"; bs "X-Custom"; bs "X-MSMail-Priority"; bs "X-Mailer";
+          bs "X-Priority"; bs "From"; bs "To"; bs "Content-Type"] /\
+  occurs (crlf ++ bs "X-Injected") (render_pure z) = false.
+Proof. vm_compute. split; reflexivity. Qed.
